@@ -22,6 +22,10 @@ enum Op {
     Div,
     Powi(i32),
     Recip,
+    AddAssign,
+    SubAssign,
+    MulAssign,
+    DivAssign,
 }
 impl Op {
     fn name(&self) -> String {
@@ -39,10 +43,14 @@ impl Op {
             Op::Div => "div",
             Op::Powi(_) => "powi",
             Op::Recip => "recip",
+            Op::AddAssign => "add_assign",
+            Op::SubAssign => "sub_assign",
+            Op::MulAssign => "mul_assign",
+            Op::DivAssign => "div_assign",
         }
     }
     fn binary(&self) -> bool {
-        matches!(self, Op::Add | Op::Sub | Op::Mul | Op::Div)
+        matches!(self, Op::Add | Op::Sub | Op::Mul | Op::Div | Op::AddAssign | Op::SubAssign | Op::MulAssign | Op::DivAssign)
     }
 }
 
@@ -92,15 +100,35 @@ fn run_impl<T: Jetty>(op: Op, a: &T, b: &T) -> T {
         Op::Div => a.rr_div(b),
         Op::Powi(n) => a.powi(n),
         Op::Recip => a.recip(),
+        Op::AddAssign => {
+            let mut x = a.clone();
+            x += b.clone();
+            x
+        }
+        Op::SubAssign => {
+            let mut x = a.clone();
+            x -= b.clone();
+            x
+        }
+        Op::MulAssign => {
+            let mut x = a.clone();
+            x *= b.clone();
+            x
+        }
+        Op::DivAssign => {
+            let mut x = a.clone();
+            x /= b.clone();
+            x
+        }
     }
 }
 fn run_model(op: Op, a: &Jet<Rat>, b: &Jet<Rat>, bs: &Basis) -> Jet<Rat> {
     match op {
-        Op::Add => a.add(b),
-        Op::Sub => a.sub(b),
+        Op::Add | Op::AddAssign => a.add(b),
+        Op::Sub | Op::SubAssign => a.sub(b),
         Op::Neg => a.neg(),
-        Op::Mul => a.mul(b, bs),
-        Op::Div => a.div(b, bs),
+        Op::Mul | Op::MulAssign => a.mul(b, bs),
+        Op::Div | Op::DivAssign => a.div(b, bs),
         Op::Powi(n) => a.powi(n, bs),
         Op::Recip => a.recip(bs),
     }
@@ -159,7 +187,7 @@ fn one_case<T: Jetty>(
         }
     };
     // which monomial pairs interact in this case
-    if matches!(op, Op::Mul | Op::Div) {
+    if matches!(op, Op::Mul | Op::Div | Op::MulAssign | Op::DivAssign) {
         let n = bs.n();
         for i in 0..n {
             if ja.c[i].is_zero() {
@@ -242,8 +270,8 @@ fn check_type<T: Jetty>(tname: &str, ctx: &Ctx, shard: usize, nshards: usize, ti
                     let (al, be) = (g.val(&mut rng, true), g.val(&mut rng, true));
                     let a0 = g.val(&mut rng, true);
                     let asl = onehot(&bs, a0, i, al);
-                    for op in [Op::Mul, Op::Div, Op::Add, Op::Sub] {
-                        let b0 = if op == Op::Div { g.pow2(&mut rng) } else { g.val(&mut rng, true) };
+                    for op in [Op::Mul, Op::Div, Op::Add, Op::Sub, Op::SubAssign, Op::AddAssign, Op::MulAssign, Op::DivAssign] {
+                        let b0 = if matches!(op, Op::Div | Op::DivAssign) { g.pow2(&mut rng) } else { g.val(&mut rng, true) };
                         let bsl = onehot(&bs, b0, j, be);
                         let (ma, mb) = if variant == 0 { (0, 0) } else { (rng.next_u64(), rng.next_u64()) };
                         one_case::<T>(&mut acc, &mut st, tname, "one-hot", op, &shape, &bs, &asl, &bsl, ma, mb);
@@ -267,7 +295,11 @@ fn check_type<T: Jetty>(tname: &str, ctx: &Ctx, shard: usize, nshards: usize, ti
                 }
                 bs.slot_mono.iter().map(|&m| dv[m]).collect()
             };
-            let op = match rep % 8 {
+            let op = match rep % 12 {
+                8 => Op::AddAssign,
+                9 => Op::SubAssign,
+                10 => Op::MulAssign,
+                11 => Op::DivAssign,
                 0 => Op::Add,
                 1 => Op::Sub,
                 2 => Op::Neg,
@@ -283,7 +315,7 @@ fn check_type<T: Jetty>(tname: &str, ctx: &Ctx, shard: usize, nshards: usize, ti
                 _ => Op::Recip,
             };
             let a0 = if matches!(op, Op::Powi(_) | Op::Recip) { g.pow2(&mut rng) } else { g.val(&mut rng, true) };
-            let b0 = if op == Op::Div { g.pow2(&mut rng) } else { g.val(&mut rng, true) };
+            let b0 = if matches!(op, Op::Div | Op::DivAssign) { g.pow2(&mut rng) } else { g.val(&mut rng, true) };
             let asl = mk(&mut rng, a0);
             let bsl = mk(&mut rng, b0);
             one_case::<T>(&mut acc, &mut st, tname, "random", op, &shape, &bs, &asl, &bsl, rng.next_u64(), rng.next_u64());
@@ -311,9 +343,9 @@ fn check_type<T: Jetty>(tname: &str, ctx: &Ctx, shard: usize, nshards: usize, ti
                     }
                     bs.slot_mono.iter().map(|&m| dv[m]).collect()
                 };
-                let op = *rng.choose(&[Op::Add, Op::Sub, Op::Mul, Op::Div, Op::Neg, Op::Recip, Op::Powi(3)]);
+                let op = *rng.choose(&[Op::Add, Op::Sub, Op::Mul, Op::Div, Op::Neg, Op::Recip, Op::Powi(3), Op::AddAssign, Op::SubAssign, Op::MulAssign, Op::DivAssign]);
                 let a0 = if matches!(op, Op::Powi(_) | Op::Recip) { g.pow2(&mut rng) } else { g.val(&mut rng, true) };
-                let b0 = if op == Op::Div { g.pow2(&mut rng) } else { g.val(&mut rng, true) };
+                let b0 = if matches!(op, Op::Div | Op::DivAssign) { g.pow2(&mut rng) } else { g.val(&mut rng, true) };
                 let asl = mk(&mut rng, a0);
                 let bsl = mk(&mut rng, b0);
                 let kbits = (ngroups as u32).min(4);
@@ -389,7 +421,7 @@ fn main() {
     extra.insert("ops_observed".into(), json!(ops));
     let required = vec![
         ("every existing (monomial, monomial) product pair observed for every shape".to_string(), all_pairs),
-        ("all 7 operations observed".to_string(), ops.len() >= 7),
+        ("all 11 operations observed".to_string(), ops.len() >= 11),
         ("at least 45 types observed".to_string(), types.len() >= 45),
     ];
     ctx.finish(
